@@ -123,8 +123,16 @@ def _mk(shape, template, tier="thorough"):
 def shards(tier, seed):
     if tier == "quick":
         return [x for s, t in QUICK for x in _mk(s, t, tier)]
-    out = []
-    for s in docs.SHAPES:
-        for t in TEMPLATES:
-            out.extend(_mk(s, t))
+    core_t = ["idx", "barekey", "slice", "idx_key", "idx_idx", "key_p", "hslice", "s_eq_x", "s_gt_3", "s_le_i", "s_sw_a",
+              "s_badre", "a_gt_2", "a_desc", "kw_max", "kw_maxp", "kw_unique", "kw_distinct", "kw_haschild", "kw_parent_i",
+              "kw_idx_parent_j", "kw_name", "star", "star_idx", "deep", "deep_key", "deep_idx", "coll_add", "coll_sub",
+              "coll_and"]
+    core_s = ["L3", "L0", "ML3", "LNULL", "LMIX", "AOH3", "AOHN", "MM", "MINT", "SET", "LFLT"]
+    seen, out = set(), []
+    pairs = [(s, t) for s in docs.SHAPES for t in core_t] + [(s, t) for s in core_s for t in TEMPLATES] + list(QUICK)
+    for s, t in pairs:
+        if (s, t) in seen:
+            continue
+        seen.add((s, t))
+        out.extend(_mk(s, t))
     return out
